@@ -5,7 +5,7 @@
    (ExtInv), only basic gates are emitted, extraction never reaches the error state, and it ends
    with identity wires and CircSem(c) proportional to the source. *)
 EXTENDS Extract, Simp
-CONSTANTS NQ, MAXLEN, ONEQ, TWOQ, PHS, STRAT, GAUSS, TEMPLATE
+CONSTANTS NQ, MAXLEN, ONEQ, TWOQ, PHS, STRAT, GAUSS, TEMPLATE, SIMPMODE
 VARIABLES c0, g, c, fr, gadgets, mode, u0
 vars == <<c0, g, c, fr, gadgets, mode, u0>>
 Qs == 0..(NQ - 1)
@@ -22,7 +22,12 @@ Build == /\ mode = "build" /\ Len(c0.gates) < MAXLEN
          /\ UNCHANGED <<g, c, fr, gadgets, mode, u0>>
 Start == /\ mode = "build" /\ (TEMPLATE = <<>> \/ Len(c0.gates) = Len(TEMPLATE)) /\ mode' = "simp" /\ g' = ToGraph(c0, FALSE) /\ u0' = CircSem(c0)
          /\ UNCHANGED <<c0, c, fr, gadgets>>
-SimpStep == /\ mode = "simp" /\ \E r \in SimpSteps(STRAT, g) : g' = r.g
+\* SIMPMODE = "all": every order in which the strategy may fire; "one": one (fixed) order, so that deep
+\* circuits reach the extraction phases (Gauss, gadget pivots) without the interleavings of the simplifier,
+\* which MC_Simp and the "all" configs cover
+SimpStep == /\ mode = "simp" /\ SimpSteps(STRAT, g) # {}
+            /\ IF SIMPMODE = "all" THEN \E r \in SimpSteps(STRAT, g) : g' = r.g
+               ELSE g' = (CHOOSE r \in SimpSteps(STRAT, g) : TRUE).g
             /\ UNCHANGED <<c0, c, fr, gadgets, mode, u0>>
 Begin == /\ mode = "simp" /\ Quiescent(STRAT, g) /\ mode' = "prepare" /\ gadgets' = InitGadgets(g)
          /\ UNCHANGED <<c0, g, c, fr, u0>>
@@ -71,6 +76,7 @@ T1(q) == ExGate("T", <<q>>, 0)
 H1(q) == ExGate("HAD", <<q>>, 0)
 \* variations around  cx 0,1; t 1; h 1; cx 1,0; t 0; cx 1,0  (a two-vertex frontier with three neighbours)
 TmplGauss == << {CX(0, 1), CX(1, 0)}, {T1(1), T1(0)}, {H1(1), H1(0)}, {CX(1, 0), CX(0, 1)}, {T1(0), T1(1)}, {CX(1, 0), CX(0, 1), H1(0)} >>
+TmplOne == << {CX(0, 1)}, {T1(1)}, {H1(1)}, {CX(1, 0)}, {T1(0)}, {CX(1, 0)} >>
 \* start only from complete template circuits
 ExtInv == mode \notin {"build", "error"} => ProjEq(Total(g, c), u0) /\ ~TIsZero(Total(g, c))
 BasicOnly == BasicOnlyC(c)
